@@ -155,7 +155,13 @@ pub fn run_raw(case: &RawCase, program: Option<&rusty_parser::Program>) -> RawRu
             });
         }
     }
+    // after a GOTO into a block the statements of the block are reached with other
+    // depths than on the way through the block's start: I2 has nothing to say there
+    let jumps_into_blocks = case.origin.contains("jumps into blocks");
     for v in &r.monitor.violations {
+        if jumps_into_blocks && v.kind == "I2" {
+            continue;
+        }
         out.found.push(Found {
             property: "C15",
             class: Class::Stack,
@@ -646,10 +652,13 @@ pub fn gen_wrep(rng: &mut Rng) -> RawCase {
     } else if rng.chance(1, 3) {
         l.push("ON ERROR RESUME NEXT".into());
     }
-    let iv = ["I%", "J&", "S!", "D#", "A1%(1)", "A1%(I%)", "A1%(4)", "P.X", "P.Y", "PA(1).X", "PA(I%).Y", "GS%", "D1#(-1)", "P.Z"];
-    let sv = ["T$", "A2$(1, 2)", "A2$(I%, 0)", "P.N", "PA(2).N", "FS", "GA$(1)", "A2$(3, 3)"];
-    let ie = ["0", "1", "-1", "3", "4", "32767", "-32768", "70000", "2.5", "-0.5", "100000", "C1", "CF", "I%", "J&", "S!", "D#", "A1%(2)", "P.X", "LEN(T$)", "UBOUND(A1%)", "LBOUND(D1#)", "UBOUND(A2$, 2)", "I% MOD 3", "I% AND 5", "NOT I%", "I% OR J&", "-I%", "(I% + 1) * 2", "VAL(T$)", "INSTR(T$, \"a\")", "Fn1%(I%)", "Fn2#(S!, T$)", "VARPTR(I%)", "VARSEG(A1%(1))", "PEEK(VARPTR(I%))", "ERR"];
+    let iv = ["I%", "J&", "S!", "D#", "A1%(1)", "A1%(I%)", "A1%(4)", "P.X", "P.Y", "PA(1).X", "PA(I%).Y", "GS%", "D1#(-1)", "P.Z", "A1%(Fn1%(1))", "PA(Fn1%(1)).X", "A1%(Undef1(1))", "PA(Undef2(2)).Y", "A1%(1, 2)", "D1#(0, 0)", "A1%(LEN(T$))"];
+    let sv = ["T$", "A2$(1, 2)", "A2$(I%, 0)", "P.N", "PA(2).N", "FS", "GA$(1)", "A2$(3, 3)", "A2$(1)", "A2$(Fn1%(0), 1)", "PA(Fn1%(1)).N"];
+    let ie = ["0", "1", "-1", "3", "4", "32767", "-32768", "70000", "2.5", "-0.5", "100000", "C1", "CF", "I%", "J&", "S!", "D#", "A1%(2)", "P.X", "LEN(T$)", "UBOUND(A1%)", "LBOUND(D1#)", "UBOUND(A2$, 2)", "I% MOD 3", "I% AND 5", "NOT I%", "I% OR J&", "-I%", "(I% + 1) * 2", "VAL(T$)", "INSTR(T$, \"a\")", "Fn1%(I%)", "Fn2#(S!, T$)", "VARPTR(I%)", "VARSEG(A1%(1))", "PEEK(VARPTR(I%))", "ERR", "Fn1%(A1%(Fn1%(1)))", "Fn1%(PA(Fn1%(1)).X)", "Fn4%(A1%(Fn1%(1)), I%)", "A1%(Fn1%(0) + 1)", "A1%(2, 1)", "LEN(A2$(1, Fn1%(1)))", "Undef3(I%)"];
     let se = ["\"\"", "\"a\"", "\"hello world\"", "T$", "CS$", "P.N", "FS", "STR$(I%)", "CHR$(65)", "LEFT$(T$, I%)", "MID$(T$, I%, 2)", "RIGHT$(T$, 1)", "UCASE$(T$) + LCASE$(T$)", "SPACE$(I%)", "STRING$(3, \"x\")", "LTRIM$(RTRIM$(T$))", "MKD$(D#)", "Fn3$(T$)", "ENVIRON$(\"HOME\")"];
+    // a GOTO into a block is legal for the checker; what the block's end finds on the
+    // stacks is then not what its own start pushed
+    let jumps = rng.chance(1, 6);
     let n = 3 + rng.below(16);
     for _ in 0..n {
         let i1 = *rng.pick(&ie);
@@ -658,7 +667,7 @@ pub fn gen_wrep(rng: &mut Rng) -> RawCase {
         let s2 = *rng.pick(&se);
         let v = *rng.pick(&iv);
         let w = *rng.pick(&sv);
-        let line = match rng.below(36) {
+        let line = match rng.below(if jumps { 41 } else { 38 }) {
             0..=4 => format!("{} = {}", v, i1),
             5..=8 => format!("{} = {}", w, s1),
             9 => format!("{} = {} + {} * {}", v, i1, i2, i1),
@@ -668,7 +677,7 @@ pub fn gen_wrep(rng: &mut Rng) -> RawCase {
             13 => format!("IF {} > {} THEN {} = {} ELSE {} = {}", i1, i2, v, i1, w, s1),
             14 => format!("IF {} = {} THEN PRINT \"eq\"", s1, s2),
             15 => format!("FOR I% = {} TO {}\n{} = {}\nNEXT", i1, i2, v, i2),
-            16 => format!("FOR S! = 1 TO 2 STEP {}\nPRINT S!;\nIF S! > 5 THEN END\nNEXT", rng.pick(&["0.5", "0.25", "-1", "I%"])),
+            16 => format!("FOR S! = 1 TO 2 STEP {}\nPRINT S!;\nC9% = C9% + 1\nIF C9% > 40 THEN END\nNEXT", rng.pick(&["0.5", "0.25", "-1", "I%", "I% * 1", "J& - J&", "C1 - 4", "I% * 0 + 1"])),
             17 => format!("SELECT CASE {}\nCASE 1 TO 3\nPRINT \"a\"\nCASE IS > {}\nPRINT \"b\"\nCASE ELSE\nEND SELECT", i1, i2),
             18 => format!("SELECT CASE {}\nCASE \"a\", \"b\"\nPRINT 1\nCASE ELSE\nPRINT 2\nEND SELECT", s1),
             19 => format!("WHILE I% < 3\nI% = I% + 1\n{} = {}\nWEND", v, i1),
@@ -687,14 +696,42 @@ pub fn gen_wrep(rng: &mut Rng) -> RawCase {
             32 => format!("PRINT USING {}; {}; {}", rng.pick(&["\"##.#\"", "\"\\ \\\"", "\"!\"", "\"#\"", "T$"]), i1, s1),
             33 => format!("{} = Fn1%({}) + Fn2#({}, {})", v, i1, i2, s1),
             34 => format!("ENVIRON {}", s1),
-            _ => format!("{} = CVD(MKD$({}))", v, i1),
+            35 => format!("{} = CVD(MKD$({}))", v, i1),
+            36 => {
+                // whole arrays where a value is expected: for the checker to refuse
+                if rng.chance(1, 6) {
+                    format!("PRINT {}; {}", i1, rng.pick(&["A1%", "A2$", "PA", "D1#"]))
+                } else {
+                    format!("PRINT {}; {}", i1, s1)
+                }
+            }
+            37 => format!("{} = Fn4%({}, {})", v, rng.pick(&["A1%(Fn1%(1))", "I%", "PA(Fn1%(1)).X", "A1%(I%)"]), rng.pick(&["I%", "GS%", "A1%(Fn1%(0) + 1)"])),
+            38 => format!("GOTO {}", rng.pick(&["InFor", "InSel", "InWhile", "InIf"])),
+            39 => format!("IF {} > {} THEN GOTO {}", i1, i2, rng.pick(&["InFor", "InSel", "InWhile", "InIf"])),
+            _ => format!("GOSUB {}", rng.pick(&["InFor", "InSel"])),
         };
         l.push(line);
+    }
+    // the blocks come last: every jump is a forward jump (a backward jump would turn the
+    // statements in between into a loop, and some of them double a string)
+    if jumps {
+        l.push("FOR K1% = 1 TO 2\nInFor:\nPRINT K1%;\nNEXT".into());
+        l.push("SELECT CASE I%\nCASE 0\nInSel:\nPRINT \"s\";\nCASE ELSE\nEND SELECT".into());
+        l.push("WHILE K2% < 2\nInWhile:\nK2% = K2% + 1\nWEND".into());
+        l.push("IF I% = 12345 THEN\nInIf:\nPRINT \"i\";\nEND IF".into());
     }
     l.push("END".into());
     l.push("Gs1:\nI% = I% + 1\nRETURN".into());
     if handler {
-        l.push(format!("Hnd:\n{}", rng.pick(&["RESUME NEXT", "PRINT \"E\"; ERR\nRESUME NEXT"])));
+        l.push(format!(
+            "Hnd:\n{}",
+            rng.pick(&[
+                "RESUME NEXT",
+                "PRINT \"E\"; ERR\nRESUME NEXT",
+                // repair and retry: the failing statement is executed again
+                "HC% = HC% + 1\nI% = I% + 1\nIF HC% < 4 THEN RESUME\nRESUME NEXT",
+            ])
+        ));
     }
     l.push("SUB Sb1 (A%, B$, C#)\nA% = A% + 1\nB$ = B$ + \"!\"\nGS% = GS% + 1\nEND SUB".into());
     l.push("SUB Sb2 (Arr%(), Q AS Pt, N%)\nArr%(1) = N%\nQ.X = N%\nQ.N = \"abcdefgh\"\nIF N% > 2 THEN EXIT SUB\nArr%(N% + 2) = 1\nEND SUB".into());
@@ -702,13 +739,18 @@ pub fn gen_wrep(rng: &mut Rng) -> RawCase {
     l.push("FUNCTION Fn1% (X%)\nIF X% > 100 THEN EXIT FUNCTION\nFn1% = X% * 2\nEND FUNCTION".into());
     l.push("FUNCTION Fn2# (A!, B$)\nFn2# = A! + LEN(B$)\nEND FUNCTION".into());
     l.push("FUNCTION Fn3$ (B$)\nFn3$ = B$ + B$\nEND FUNCTION".into());
+    l.push("FUNCTION Fn4% (A%, B%)\nA% = A% + 1\nFn4% = A% + B%\nEND FUNCTION".into());
     let text = l.join("\n") + "\n";
     RawCase {
         text,
         stdin: vec![],
         files: vec![],
         plan: vec![],
-        origin: "W-REP generator".into(),
+        origin: if jumps {
+            "W-REP generator (jumps into blocks)".into()
+        } else {
+            "W-REP generator".into()
+        },
     }
 }
 
